@@ -42,6 +42,41 @@ def run(chk, crate="rssl_hlsl", P="C01"):
     rule_order(chk, crate, P)
     if P == "C01":
         rule_conv(chk, P)
+    rule_text(chk, P)
+
+
+def rule_text(chk, P):
+    """The emitted tree becomes text through rssl_formatter: a lost parenthesis re-groups the expression under the
+    target's grammar and two operator spellings printed back to back read as another operator. The C09 parenthesis,
+    operand-side and adjacency rules are re-evaluated under this property. Not re-keyed: an assignment inside a `?:`
+    branch printed without parentheses - HLSL (DXC) and Metal are C++-like grammars that accept it with the same
+    grouping (the repository's golden Metal output contains it); it is a finding of C09/C04 only, where the text is
+    re-read by rssl's own parser."""
+    import c04
+    import c09
+    import interp as I
+
+    class Px(c04.Proxy):
+        def _k(self, key):
+            for a, b in self.mapping:
+                if key.startswith(a):
+                    return b + key[len(a):]
+            return P + ".text/" + key
+
+        def ob(self, key, ok, why="", where=None, trivial=False, sample=None):
+            if key.startswith(("C09.paren/TernaryConditional.1/", "C09.paren/TernaryConditional.2/")) and "@expr_p14" in key:
+                return ok
+            return c04.Proxy.ob(self, key, ok, why, where, trivial, sample)
+    px = Px(chk, [("C09.paren", P + ".regroup"), ("C09.adj", P + ".adjacent"), ("C09.anchor", P + ".anchor/c09"), ("C09.floor", P + ".floor/c09"),
+                  ("C09.assoc", P + ".assoc"), ("C09.sides", P + ".sides"), ("C09.lexer", P + ".lexer")])
+    try:
+        fm = c09.Formatter(px)
+        pr = c09.Parser(px)
+        lx = c09.Lexer(px)
+        c09.rule_paren(px, fm, pr)
+        c09.rule_adj(px, fm, pr, lx)
+    except (c09.Missing, I.Unknown) as e:
+        chk.ob(P + ".anchor/c09-extraction", False, "anchor-missing: %s" % e, "rssl_formatter / rssl_parser")
 
 
 # ------------------------------------------------------------------ operators
@@ -223,57 +258,34 @@ def rule_shape(chk, crate, P):
 
 # ------------------------------------------------------------------ order / selection
 
-REORDER = {"rev", "skip", "take", "step_by", "filter", "filter_map", "skip_while", "take_while", "chunks", "windows", "last", "nth",
+REORDER = {"rev", "skip", "take", "step_by", "skip_while", "take_while", "chunks", "windows", "last", "nth",
            "retain", "dedup", "swap", "reverse", "truncate", "pop", "remove", "split_first", "split_last", "split_at", "sort", "sort_by",
            "sort_by_key", "sort_unstable", "swap_remove", "drain", "insert"}
 RANGES = {"RangeFrom", "RangeTo", "Range", "RangeInclusive", "RangeToInclusive"}
-# every operation in an exporter that drops, skips or reorders elements of a sequence, confirmed by reading; (function, op) -> (count, why)
+# Every operation in an exporter crate that skips or reorders elements of a sequence, confirmed by reading. Counted per
+# crate (moving code between functions does not change it); filter / map / index loops are not inventoried (they are the
+# usual shape of a behaviour-preserving refactor), index ranges are judged by rule_ranges instead.   op -> (count, why)
 ORDER_TABLE = {
     "rssl_hlsl": {
-        ("generate_expression", "rev"): (1, "Sequence is folded from the last element: (a, (b, c))"),
-        ("generate_expression", "split_last"): (1, "same fold: the last element starts the chain"),
-        ("generate_for_init", "split_first"): (1, "first declaration supplies the shared type, the rest are appended in order"),
-        ("generate_type_impl", "rev"): (1, "modifiers are prepended, so they are visited in reverse to keep their order"),
-        ("prepend_modifiers", "rev"): (1, "same: prepend in reverse keeps order"),
-        ("generate_function_inner", "Range"): (1, "index loop over template parameters 0..n"),
-        ("generate_intrinsic_function", "RangeFrom"): (1, "method form: exprs[0] is the object, exprs[1..] the arguments"),
-        ("generate_user_call", "RangeFrom"): (1, "method call: exprs[0] is the object, exprs[1..] the arguments"),
-        ("register_binding", "resize"): (1, "bind group vector grows to the group index"),
-        ("simplify_namespaces", "append"): (1, "adjacent namespaces are merged in order"),
-        ("generate_for_init", "append"): (1, "later declarators are appended in order"),
+        "rev": (3, "Sequence is folded from the last element: (a, (b, c)); modifiers are prepended in reverse twice"),
+        "split_last": (1, "the Sequence fold starts with the last element"),
+        "split_first": (1, "generate_for_init: the first declaration supplies the shared type, the rest are appended in order"),
     },
     "rssl_msl": {
-        ("generate_for_init", "append"): (1, "later declarators are appended in order"),
-        ("generate_intrinsic_op", "insert"): (1, "mesh output helper receives the output object as an extra argument"),
-        ("generate_module", "append"): (1, "pipeline definitions follow the user definitions"),
-        ("generate_module", "insert"): (1, "helper namespace is placed first"),
-        ("generate_type_impl", "insert"): (1, "library types are qualified with the metal namespace"),
-        ("simplify_namespaces", "append"): (1, "adjacent namespaces are merged in order"),
-        ("generate_expression", "rev"): (1, "Sequence fold from the last element"),
-        ("generate_expression", "split_last"): (1, "same fold"),
-        ("generate_expression", "Range"): (1, "constructor slot loop"),
-        ("generate_for_init", "split_first"): (1, "first declaration supplies the shared type"),
-        ("generate_type_impl", "rev"): (2, "modifiers are prepended in reverse"),
-        ("prepend_modifiers", "rev"): (1, "prepend in reverse keeps order"),
-        ("find_function_for_intrinsic", "split_first"): (1, "object type is the first argument type"),
-        ("process_mesh_entry", "filter_map"): (2, "mesh output parameters are removed from the signature"),
-        ("process_mesh_entry", "retain"): (1, "mesh output locals are removed"),
-        ("analyse_globals", "Range"): (1, "index loop over globals"),
-        ("build_mesh_output_set_indices", "Range"): (1, "index loop"),
-        ("generate_function_inner", "Range"): (1, "index loop over template parameters"),
-        ("generate_invoke_helper_method", "RangeFrom"): (1, "exprs[0] is the object"),
-        ("generate_invoke_simple_method", "RangeFrom"): (1, "exprs[0] is the object"),
-        ("generate_user_call", "RangeFrom"): (1, "exprs[0] is the object"),
-        ("generate_pipeline", "sort_by"): (2, "argument buffer members are ordered by api index; stages are ordered by stage kind"),
-        ("analyse_globals", "sort"): (1, "required globals are sorted (hash iteration)"),
-        ("generate_helpers", "sort"): (1, "helpers are sorted (hash iteration)"),
-        ("generate_helpers", "sort_by"): (1, "helper objects are sorted (hash iteration)"),
+        "insert": (3, "mesh output helper receives the output object as extra argument; helper namespace first; metal:: qualification"),
+        "rev": (4, "Sequence fold; modifiers prepended in reverse (3)"),
+        "split_last": (1, "Sequence fold"),
+        "split_first": (2, "generate_for_init shared type; object type is the first argument type of an intrinsic method"),
+        "retain": (1, "process_mesh_entry: mesh output locals are removed"),
+        "sort_by": (3, "argument buffer members by api index; stages by kind; helper objects (hash iteration)"),
+        "sort": (2, "required globals and helpers are sorted (hash iteration)"),
     },
 }
 
 
 def order_inventory(f, crate):
     inv = {}
+    where_ = {}
     for b in f.crates[crate]["bodies"]:
         if "thir" not in b:
             continue
@@ -284,28 +296,49 @@ def order_inventory(f, crate):
             if n in REORDER and any(x in fn for x in ("iter", "slice", "vec::Vec", "Vec::<")):
                 if n == "insert" and "Vec" not in fn:
                     continue
-                inv[(owner, n)] = inv.get((owner, n), 0) + 1
-            if n in ("resize", "append") and "Vec" in fn:
-                inv[(owner, n)] = inv.get((owner, n), 0) + 1
-        for a in F.exprs(b["thir"], "Adt"):
-            if short(a["adt"]) in RANGES:
-                inv[(owner, short(a["adt"]))] = inv.get((owner, short(a["adt"])), 0) + 1
-    return inv
+                inv[n] = inv.get(n, 0) + 1
+                where_.setdefault(n, []).append(owner)
+    return inv, where_
 
 
 def rule_order(chk, crate, P):
-    """Nothing is dropped or reordered: every skip / reverse / filter / slice operation in the exporter is a reviewed one."""
+    """Nothing is skipped or reordered: every reverse / skip / split / sort / insert / remove operation on a sequence in the exporter is a reviewed one."""
     f = chk.facts
-    inv = order_inventory(f, crate)
+    inv, wh = order_inventory(f, crate)
     table = ORDER_TABLE[crate]
+    cn = crate.replace("rssl_", "")
     for key in sorted(set(inv) | set(table)):
         got = inv.get(key, 0)
         want, why = table.get(key, (0, None))
         ok = got == want
-        chk.ob(P + ".order/%s/%s.%s" % (crate.replace("rssl_", ""), key[0], key[1]), ok,
-               "%d x %s in %s: %s" % (got, key[1], key[0], why) if ok else
-               ("%s in %s now has %d `%s` operation(s) (reviewed: %d): elements of an emitted sequence can be dropped, skipped or reordered"
-                % (crate, key[0], got, key[1], want)), crate, sample={"fn": key[0], "op": key[1], "count": got})
+        chk.ob(P + ".order/%s/%s" % (cn, key), ok,
+               "%d x %s: %s" % (got, key, why) if ok else
+               ("%s now has %d `%s` operation(s) on sequences (reviewed: %d) in %s: elements of an emitted sequence can be skipped or reordered"
+                % (crate, got, key, want, sorted(set(wh.get(key, []))))), crate, sample={"op": key, "count": got, "in": sorted(set(wh.get(key, [])))})
+    # index ranges: `a..b` loops start at 0; slicing ranges `[k..]` only ever peel the object of a method call (k = 1)
+    n = 0
+    for b in f.crates[crate]["bodies"]:
+        if "thir" not in b:
+            continue
+        owner = short(b.get("parent") or b["path"])
+        for a in F.exprs(b["thir"], "Adt"):
+            sa = short(a["adt"])
+            if sa not in RANGES:
+                continue
+            fl = {str(x["f"]): x["e"] for x in a["fields"]}
+            st = F.lit(F.strip(fl["start"])) if "start" in fl else None
+            n += 1
+            if sa in ("Range", "RangeInclusive"):
+                ok = st is None or st[1] == 0
+                chk.ob(P + ".order/%s/range-start/%s" % (cn, owner), ok, "index range starts at 0 (or at a computed bound)" if ok else
+                       "an index range in %s starts at %s: the first element(s) of the sequence are skipped" % (owner, st[1]), where(b, a))
+            elif sa == "RangeFrom":
+                ok = st is not None and st[1] == 1
+                chk.ob(P + ".order/%s/slice-from/%s" % (cn, owner), ok, "`[1..]`: element 0 is the object of the method call and is emitted separately" if ok else
+                       "a slice in %s starts at %s, not 1: arguments are dropped (or the object repeated)" % (owner, st[1] if st else "a computed index"), where(b, a))
+            else:
+                chk.ob(P + ".order/%s/slice-to/%s" % (cn, owner), False, "a `..k` slice in %s truncates an emitted sequence" % owner, where(b, a))
+    chk.floor(P + ".floor/%s/ranges" % cn, n, 3 if crate == "rssl_hlsl" else 6, "index / slice ranges judged", crate)
 
 
 # ------------------------------------------------------------------ literals
